@@ -417,6 +417,13 @@ pub fn load_known(verif_dir: &str) -> Vec<Known> {
 /// Normalise a message for use inside a signature: digits collapsed, length
 /// bounded, so that a signature names a call site / clause, not one input.
 pub fn norm_msg(s: &str) -> String {
+    // keep the fixed part of a message: cut before the input-dependent tail
+    let mut s = s;
+    for cut in [": Error {", " of `", "; it is inside", ": \"", ": '"] {
+        if let Some(p) = s.find(cut) {
+            s = &s[..p];
+        }
+    }
     let mut out = String::new();
     let mut last_digit = false;
     for c in s.chars() {
